@@ -223,3 +223,21 @@ def run_cases(prop_id: str, name: str, header: str, cases, check_fn: str, case_t
         if f.suffix != '.v':
             f.unlink()
     return sorted(failing)
+
+
+def coqchk(module: str, timeout=1800):
+    """independent re-check of the compiled property file and everything it depends on;
+    returns the CONTEXT SUMMARY as a dict of lists"""
+    p = subprocess.run(['timeout', str(timeout), 'coqchk', '-silent', '-o', '-Q', str(COQ), 'Cirbo', module],
+                       cwd=COQ, capture_output=True, text=True)
+    out = p.stdout + p.stderr
+    summary = {}
+    cur = None
+    for line in out.splitlines():
+        m = re.match(r'^\* (.*?):\s*(.*)$', line)
+        if m:
+            cur = m.group(1)
+            summary[cur] = [m.group(2)] if m.group(2) else []
+        elif cur and line.strip():
+            summary[cur].append(line.strip())
+    return p.returncode, summary, out[-2000:]
